@@ -1,15 +1,356 @@
-//! C03 — ops evaluated on the real code and the generator of their inputs.
+//! C03 (+ the DijkstraPred half of C05) — ops evaluated on the real code and their generator.
+//!
+//!   dijkstra_all       <wu-desc> <sources>        => [v…] [[v d]…] [dist…]
+//!        item sequence of `Dijkstra`, item sequence of `DijkstraDist`, `DijkstraDist::distances()`
+//!   dijkstra_pred_tree <wu-desc> <sources>        => [[p v]…] [pred…]
+//!        item sequence of `DijkstraPred`, `DijkstraPred::predecessors()`
+//!   dijkstra_pred_sp   <wu-desc> <sources> <tgt>  => none | [path]
+//!        `DijkstraPred::shortest_path(tgt)`;  `tgt` ∈ `[in [ids]] always never`
+//!
+//! Every observation uses a fresh iterator on the same digraph. `usize::MAX` is printed as is.
 #![allow(unused_imports, dead_code, clippy::all)]
 
 use crate::graphs::{self, Desc};
 use crate::rng::Rng;
 use crate::value::V;
+use graaf::{Dijkstra, DijkstraDist, DijkstraPred};
+use std::collections::BTreeSet;
 
-pub fn eval(_op: &str, _args: &[V]) -> Option<Vec<V>> {
-    None
+fn parse(args: &[V]) -> Option<(Desc, Vec<usize>)> {
+    let d = Desc::parse(args.first()?)?;
+    if d.repr != "wu" {
+        return None;
+    }
+    let s = args.get(1)?.as_usizes()?;
+    Some((d, s))
 }
 
-pub fn gen(_rng: &mut Rng, _thorough: bool, _emit: &mut dyn FnMut(String)) {}
+/// A correct iterator yields at most `order` items. Item sequences are cut after this many items
+/// so that an implementation that never stops yielding is reported (`overrun`) instead of hanging
+/// the harness; the calls that drain the iterator internally are skipped in that case.
+fn item_bound(d: &Desc) -> usize {
+    2 * d.order() + 2
+}
+
+pub fn eval(op: &str, args: &[V]) -> Option<Vec<V>> {
+    match op {
+        "dijkstra_all" => {
+            if args.len() != 2 {
+                return None;
+            }
+            let (d, s) = parse(args)?;
+            let g = d.build_wu();
+            let bound = item_bound(&d);
+            let it: Vec<usize> = Dijkstra::new(&g, s.iter().copied()).take(bound).collect();
+            let di: Vec<(usize, usize)> = DijkstraDist::new(&g, s.iter().copied()).take(bound).collect();
+            // `distances()` drains the iterator itself: only call it when the iterator is known to end
+            let ds = if di.len() > d.order() {
+                V::atom("overrun")
+            } else {
+                V::us(DijkstraDist::new(&g, s.iter().copied()).distances())
+            };
+            Some(vec![V::us(it), V::pairs(di), ds])
+        }
+        "dijkstra_pred_tree" => {
+            if args.len() != 2 {
+                return None;
+            }
+            let (d, s) = parse(args)?;
+            let g = d.build_wu();
+            let items: Vec<(Option<usize>, usize)> =
+                DijkstraPred::new(&g, s.iter().copied()).take(item_bound(&d)).collect();
+            let items_v = V::L(items.iter().map(|&(p, v)| V::L(vec![V::opt_u(p), V::u(v)])).collect());
+            if items.len() > d.order() {
+                return Some(vec![items_v, V::atom("overrun")]);
+            }
+            let tree = DijkstraPred::new(&g, s.iter().copied()).predecessors();
+            let pred: Vec<Option<usize>> = tree.into_iter().collect();
+            Some(vec![items_v, V::L(pred.iter().map(|p| V::opt_u(*p)).collect())])
+        }
+        "dijkstra_pred_sp" => {
+            if args.len() != 3 {
+                return None;
+            }
+            let (d, s) = parse(args)?;
+            let g = d.build_wu();
+            if DijkstraPred::new(&g, s.iter().copied()).take(item_bound(&d)).count() > d.order() {
+                return Some(vec![V::atom("overrun")]);
+            }
+            let mut it = DijkstraPred::new(&g, s.iter().copied());
+            let r = match &args[2] {
+                V::A(a) if a == "always" => it.shortest_path(|_| true),
+                V::A(a) if a == "never" => it.shortest_path(|_| false),
+                V::L(xs) if xs.len() == 2 && xs[0].as_atom() == Some("in") => {
+                    let ts = xs[1].as_usizes()?;
+                    it.shortest_path(|v| ts.contains(&v))
+                }
+                _ => return None,
+            };
+            Some(vec![r.map_or_else(V::none, V::us)])
+        }
+        _ => None,
+    }
+}
+
+// ------------------------------------------------------------------------------ generator
+
+fn wu(n: usize, arcs: &[(usize, usize, u64)]) -> Desc {
+    Desc {
+        repr: "wu".to_string(),
+        verts: (0..n).collect(),
+        arcs: arcs.iter().map(|&(u, v, _)| (u, v)).collect(),
+        weights: arcs.iter().map(|&(_, _, w)| i128::from(w)).collect(),
+    }
+}
+
+/// Weight styles: many zeros / small with ties / wide range (sums stay far below 2^40).
+fn gen_weight(rng: &mut Rng, style: usize) -> u64 {
+    match style {
+        0 => {
+            // 0..9 with many zeros
+            if rng.chance(2, 5) { 0 } else { rng.range(0, 9) as u64 }
+        }
+        1 => rng.range(1, 3) as u64,          // small positive: many ties
+        2 => rng.range(0, 9) as u64,
+        3 => {
+            // wide range, mixed magnitudes
+            match rng.below(4) {
+                0 => rng.range(0, 9) as u64,
+                1 => rng.range(10, 1_000) as u64,
+                2 => rng.range(1_000, 1_000_000) as u64,
+                _ => rng.range(0, 100_000_000) as u64,
+            }
+        }
+        _ => {
+            if rng.chance(1, 2) { 0 } else { 1 }
+        }
+    }
+}
+
+/// Structured families on top of the shared arc generator. Returns (family, description).
+fn gen_case(rng: &mut Rng, max_order: usize) -> (&'static str, Desc) {
+    // the shared order mixture clips its "large" class to the cap: vary the cap so that the large
+    // cases are spread over 41..=max_order instead of all sitting at max_order
+    let max_order = if max_order > 41 && rng.chance(2, 3) { 41 + rng.below(max_order - 40) } else { max_order };
+    let style = rng.below(5);
+    match rng.below(10) {
+        // the "superseded heap entry ahead of a pending vertex" pattern, embedded at random ids:
+        // a->b heavy, a->c light, c->b light (supersedes), a->e heavier than everything (pending)
+        0 | 1 => {
+            let n = (4 + rng.below(max_order.saturating_sub(3).max(1))).min(max_order.max(4));
+            let mut ids: Vec<usize> = (0..n).collect();
+            rng.shuffle(&mut ids);
+            let (a, b, c, e) = (ids[0], ids[1], ids[2], ids[3]);
+            let light = 1 + rng.below(3) as u64;
+            let heavy = 2 * light + 1 + rng.below(8) as u64;
+            let pending = heavy + 1 + rng.below(10) as u64;
+            let mut arcs = vec![(a, b, heavy), (a, c, light), (c, b, rng.below(light as usize + 1) as u64), (a, e, pending)];
+            // some extra random arcs out of the other vertices
+            let mut seen: BTreeSet<(usize, usize)> = arcs.iter().map(|&(u, v, _)| (u, v)).collect();
+            for _ in 0..rng.below(2 * n) {
+                let (u, v) = (rng.below(n), rng.below(n));
+                if u != v && seen.insert((u, v)) {
+                    arcs.push((u, v, gen_weight(rng, style)));
+                }
+            }
+            rng.shuffle(&mut arcs);
+            ("stale-pattern", wu(n, &arcs))
+        }
+        // chain of diamonds with a late shortcut: u -> a (heavy), u -> b (light), b -> a (light), a -> next
+        2 => {
+            let k = 1 + rng.below((max_order / 3).max(1).min(8));
+            let n = 3 * k + 1;
+            let mut arcs = vec![];
+            for i in 0..k {
+                let (u, a, b, nx) = (3 * i, 3 * i + 1, 3 * i + 2, 3 * i + 3);
+                let l1 = gen_weight(rng, 2);
+                let l2 = gen_weight(rng, 2);
+                arcs.push((u, a, l1 + l2 + 1 + rng.below(5) as u64));
+                arcs.push((u, b, l1));
+                arcs.push((b, a, l2));
+                arcs.push((a, nx, gen_weight(rng, style)));
+                if rng.chance(1, 2) {
+                    arcs.push((u, nx, 30 + rng.below(30) as u64));
+                }
+            }
+            rng.shuffle(&mut arcs);
+            ("diamond-chain", wu(n, &arcs))
+        }
+        // zero-weight cycle(s) with exits
+        3 => {
+            let n = (3 + rng.below(max_order.saturating_sub(2).max(1))).min(max_order.max(3));
+            let len = 2 + rng.below(n - 1);
+            let mut arcs = vec![];
+            for i in 0..len {
+                arcs.push((i, (i + 1) % len, 0));
+            }
+            let mut seen: BTreeSet<(usize, usize)> = arcs.iter().map(|&(u, v, _)| (u, v)).collect();
+            for _ in 0..rng.below(2 * n + 1) {
+                let (u, v) = (rng.below(n), rng.below(n));
+                if u != v && seen.insert((u, v)) {
+                    arcs.push((u, v, gen_weight(rng, style)));
+                }
+            }
+            rng.shuffle(&mut arcs);
+            ("zero-cycle", wu(n, &arcs))
+        }
+        // all weights equal: pure tie-breaking
+        4 => {
+            let (_, mut d) = graphs::gen_wdesc(rng, "wu", max_order, 0, 0);
+            let w = i128::from(rng.range(0, 2));
+            for x in &mut d.weights {
+                *x = w;
+            }
+            ("uniform-weight", d)
+        }
+        _ => {
+            let (name, mut d) = graphs::gen_wdesc(rng, "wu", max_order, 0, 0);
+            d.weights = d.arcs.iter().map(|_| i128::from(gen_weight(rng, style))).collect();
+            (name, d)
+        }
+    }
+}
+
+fn show_sources(s: &[usize]) -> V {
+    V::us(s.iter().copied())
+}
+
+/// Vertices reachable from the sources (generator-side helper to aim targets; plain DFS).
+fn reachable(d: &Desc, sources: &[usize]) -> Vec<usize> {
+    let n = d.order();
+    let mut seen = vec![false; n];
+    let mut stack: Vec<usize> = sources.to_vec();
+    for &s in sources {
+        seen[s] = true;
+    }
+    while let Some(u) = stack.pop() {
+        for &(a, b) in &d.arcs {
+            if a == u && !seen[b] {
+                seen[b] = true;
+                stack.push(b);
+            }
+        }
+    }
+    (0..n).filter(|&v| seen[v]).collect()
+}
+
+fn gen_tgt(rng: &mut Rng, d: &Desc, sources: &[usize]) -> V {
+    let n = d.order();
+    let reach = reachable(d, sources);
+    let far: Vec<usize> = reach.iter().copied().filter(|v| !sources.contains(v)).collect();
+    let tin = |ts: Vec<usize>| V::L(vec![V::atom("in"), V::us(ts)]);
+    match rng.below(20) {
+        0 | 1 => V::atom("never"),
+        2 => V::atom("always"),
+        3 | 4 if !sources.is_empty() => {
+            // a source is itself a target (among others)
+            let mut ts = vec![*rng.pick(sources)];
+            if rng.chance(1, 2) {
+                ts.push(rng.below(n));
+            }
+            tin(ts)
+        }
+        5..=7 => tin(vec![rng.below(n)]),
+        8..=11 if !far.is_empty() => tin(vec![*rng.pick(&far)]),
+        12..=15 if far.len() >= 2 => {
+            // several reachable targets compete (plus possibly unreachable / absent ids)
+            let k = 2 + rng.below(3);
+            let mut ts: Vec<usize> = (0..k).map(|_| *rng.pick(&far)).collect();
+            if rng.chance(1, 3) {
+                ts.push(rng.below(n + 1));
+            }
+            tin(ts)
+        }
+        _ => {
+            let k = 2 + rng.below(4);
+            tin((0..k).map(|_| rng.below(n + 1)).collect())
+        }
+    }
+}
+
+const MAX_ORDER: usize = 60;
+
+pub fn gen(rng: &mut Rng, thorough: bool, emit: &mut dyn FnMut(String)) {
+    let n_random = if thorough { 40_000 } else { 700 };
+    for _ in 0..n_random {
+        let (_, d) = gen_case(rng, MAX_ORDER);
+        let s = graphs::gen_sources(rng, d.order());
+        emit(format!("dijkstra_all {} {}", d.to_v(), show_sources(&s)));
+    }
+    if thorough {
+        exhaustive4(rng, 120_000, &mut |d, s| emit(format!("dijkstra_all {} {}", d.to_v(), show_sources(s))));
+    }
+    // the DijkstraPred ops are part of C05's run; a share of them runs here too
+    let mut sub = rng.fork();
+    gen_pred_n(&mut sub, if thorough { 40_000 } else { 500 }, false, emit);
+}
+
+/// All digraphs on 4 vertices with arc weights from {0,1,3}: each ordered pair is absent or
+/// carries one of the three weights (4^12 ≈ 1.7e7 digraphs) — sampled uniformly within `budget`,
+/// every sample with a random non-empty source subset; plus the complete enumeration of the
+/// 3-vertex scope (4^6 = 4096 digraphs × 7 non-empty source subsets when the budget allows).
+fn exhaustive4(rng: &mut Rng, budget: usize, out: &mut dyn FnMut(&Desc, &[usize])) {
+    const W: [u64; 3] = [0, 1, 3];
+    let pairs3: Vec<(usize, usize)> = (0..3).flat_map(|u| (0..3).filter(move |&v| v != u).map(move |v| (u, v))).collect();
+    for code in 0..4usize.pow(6) {
+        let mut c = code;
+        let mut arcs = vec![];
+        for &(u, v) in &pairs3 {
+            let k = c % 4;
+            c /= 4;
+            if k > 0 {
+                arcs.push((u, v, W[k - 1]));
+            }
+        }
+        let d = wu(3, &arcs);
+        for mask in 1..8usize {
+            let s: Vec<usize> = (0..3).filter(|i| mask >> i & 1 == 1).collect();
+            out(&d, &s);
+        }
+    }
+    let pairs4: Vec<(usize, usize)> = (0..4).flat_map(|u| (0..4).filter(move |&v| v != u).map(move |v| (u, v))).collect();
+    for _ in 0..budget.saturating_sub(4096 * 7) {
+        let mut arcs = vec![];
+        for &(u, v) in &pairs4 {
+            let k = rng.below(4);
+            if k > 0 {
+                arcs.push((u, v, W[k - 1]));
+            }
+        }
+        let d = wu(4, &arcs);
+        let mask = 1 + rng.below(15);
+        let mut s: Vec<usize> = (0..4).filter(|i| mask >> i & 1 == 1).collect();
+        rng.shuffle(&mut s);
+        out(&d, &s);
+    }
+}
+
+fn gen_pred_n(rng: &mut Rng, n_random: usize, exhaustive: bool, emit: &mut dyn FnMut(String)) {
+    for _ in 0..n_random {
+        let (_, d) = gen_case(rng, MAX_ORDER);
+        let s = graphs::gen_sources(rng, d.order());
+        if rng.chance(1, 3) {
+            emit(format!("dijkstra_pred_tree {} {}", d.to_v(), show_sources(&s)));
+        } else {
+            let tgt = gen_tgt(rng, &d, &s);
+            emit(format!("dijkstra_pred_sp {} {} {}", d.to_v(), show_sources(&s), tgt));
+        }
+    }
+    if exhaustive {
+        let mut sub = rng.fork();
+        let mut r2 = rng.fork();
+        exhaustive4(&mut sub, 40_000, &mut |d, s| {
+            if r2.chance(1, 2) {
+                emit(format!("dijkstra_pred_tree {} {}", d.to_v(), show_sources(s)));
+            } else {
+                let tgt = gen_tgt(&mut r2, d, s);
+                emit(format!("dijkstra_pred_sp {} {} {}", d.to_v(), show_sources(s), tgt));
+            }
+        });
+    }
+}
 
 /// `DijkstraPred` cases (predecessors / shortest_path); also part of C05's run.
-pub fn gen_pred(_rng: &mut Rng, _thorough: bool, _emit: &mut dyn FnMut(String)) {}
+pub fn gen_pred(rng: &mut Rng, thorough: bool, emit: &mut dyn FnMut(String)) {
+    gen_pred_n(rng, if thorough { 10_000 } else { 400 }, thorough, emit);
+}
